@@ -285,6 +285,9 @@ F5_SCRIPTS = {
     "augmented-int-in-while-then-derived": "total = 3\nj = 0\nwhile j < 3:\n    total *= 2\n    j += 1\nout = total + 1\nmon.write(out)\n",
     "augmented-in-main-loop-then-len": "msg = 'a'\nwhile True:\n    msg += 'b'\n    mon.write(len(msg))\n    sleep(1)\n",
     "two-identical-list-literals": "on_pat = [1, 0]\noff_pat = [1, 0]\non_pat.append(1)\nmon.write(len(off_pat))\nmon.write(len(on_pat))\n",
+    "range-len-evaluated-once-with-append-in-body": "xs = [1, 2, 3]\nn = 0\nfor i in range(len(xs)):\n    xs.append(i)\n    n = n + 1\nmon.write(n)\n",
+    "flash-pattern-folded-from-named-list-then-mutated": "from Reduino.Actuators import Led\nled = Led(9)\nxs = [1, 0, 1]\nled.flash_pattern(xs, 10)\nxs.append(0)\nxs.append(1)\nmon.write('done')\n",
+    "parameter-shadows-global-constant": "label = 'hello'\ndef width(label):\n    return len(label)\nw = width('hi')\nmon.write(w)\n",
     "derived-in-main-loop": "x = 1\nwhile True:\n    y = x + 1\n    mon.write(y)\n    x = x + 2\n    sleep(1)\n",
 }
 
